@@ -310,7 +310,14 @@ def r_ord_ctor(ctx):
                        'constructor accepts a run limit above the window: table %s' % (t1,), extracted=list(t1),
                        inputs='LocalBioFilter(observed_length=k, max_homopolymer_runs>k)')
     t2 = table(lambda x: is_call(x, 'builtins.len') and x[2] and x[2][0][0] in ('iter', 'item'), None)
-    if 'unknown' in t2:
+    uses_min = any(is_call(x, 'builtins.min') and any(y == ('v', 'undesired_motifs', 'P') for y in walk_term(x))
+                   for nd_ in raises for a_, p_ in ctx.conds(f, nd_) for x in walk_term(a_))
+    if uses_min:
+        run.refute('R-ORD', f, 'motif-vs-window', line,
+                   'the motif-length guard compares the SHORTEST motif (min(...)) with the window: a list that mixes a fitting '
+                   'motif with one longer than the window is accepted, and that motif can only be seen across windows',
+                   inputs="LocalBioFilter(observed_length=3, undesired_motifs=['AC', 'GATC'])")
+    elif 'unknown' in t2:
         run.undecided('R-ORD', f, 'motif-vs-window', line, 'the guard is not evaluable on the three orderings: %s' % (t2,))
     else:
       run.check(t2 == ('accept', 'accept', 'raise'), 'R-ORD', f, 'motif-vs-window', line,
